@@ -634,6 +634,30 @@ func (i *interp) cmp3(x, y value) *term.T {
 
 func (i *interp) indexByte(bs []*term.T, b *term.T) *term.T {
 	c := i.ctx
+	// a constant haystack searched for the result of a constant-table lookup
+	// is itself a table over the same index (e.g. alphabet[index] decoded again)
+	if x, vals, ok := term.AsTable(b); ok {
+		allConst := true
+		for _, h := range bs {
+			if !h.IsConst() {
+				allConst = false
+				break
+			}
+		}
+		if allConst {
+			out := make([]uint64, len(vals))
+			for j, v := range vals {
+				out[j] = ^uint64(0)
+				for k, h := range bs {
+					if h.K == v {
+						out[j] = uint64(k)
+						break
+					}
+				}
+			}
+			return c.TableT(x, out, 64)
+		}
+	}
 	r := c.BV(64, ^uint64(0))
 	for k := len(bs) - 1; k >= 0; k-- {
 		r = c.IteT(c.EqT(bs[k], b), c.BV(64, uint64(k)), r)
